@@ -108,6 +108,69 @@ Proof.
   - eapply IH; eassumption.
 Qed.
 
+(** ** elements: Section Elems of Proofs/XmlWFSyntaxDtdFull.v once more, with the weaker fact about a
+    reference in content (the expansion passes the checks at the fuel of the document, not at every fuel:
+    with attributes inside replacement text, fuel 0 would not do) *)
+Section ElemsM.
+Variable ents : list Info.entity.
+Variable ext : bool.
+Variable en : W.env.
+Variable f : nat.
+Notation F := (Datatypes.S (Datatypes.S f)).
+Hypothesis Hattr : forall nm e, resolve_ref ents ext true nm = IOk e -> W.av_ok F en [] [W.AvEnt nm] = None.
+Hypothesis Hcont : forall nm e, resolve_ref ents ext false nm = IOk e ->
+  exists x', W.expand F en [] (W.XEntRef nm) = inr x' /\ W.tree_ok F en x' = None.
+
+Definition m_elem_checked (e : element) : Prop :=
+  p_element_ok e -> forall el, build_element ents ext e = IOk el ->
+  exists x', W.expand F en [] (x_elem e) = inr x' /\ W.tree_ok F en x' = None.
+
+Lemma m_cells_check (cells : list cell) : cells_all m_elem_checked cells -> cells_ok p_element_ok cells ->
+  forall ch, build_cells (build_element ents ext) ents ext cells = IOk ch ->
+  exists kids', W.mapM (W.expand F en []) (x_cells x_elem cells) = inr kids' /\ W.allc (W.tree_ok F en) kids' = None.
+Proof.
+  induction 1 as [|[c tl] l Hc _ IH]; intros Hok ch Hb.
+  - exists []. split; reflexivity.
+  - cbn [cells_ok] in Hok. destruct Hok as [Hc_ok [_ Hl_ok]]. cbn [build_cells] in Hb.
+    apply ibind_ok in Hb. destruct Hb as [it [Hit Hb]]. apply ibind_ok in Hb. destruct Hb as [r [Hr _]].
+    destruct (IH Hl_ok r Hr) as [kl [Ekl Okl]]. destruct (s_text_check en f tl) as [Et Ot].
+    assert (exists x', W.expand F en [] (x_contents x_elem c) = inr x' /\ W.tree_ok F en x' = None) as [x' [Ex Ox]].
+    { cbn [fst] in Hc. destruct c as [e'|[num rd|n]|s|p|s]; cbn [build_child x_contents contents_ok] in *.
+      - exact (Hc Hc_ok it Hit).
+      - apply ibind_ok in Hit. destruct Hit as [c0 [Hc0 _]]. destruct (char_from_spec _ _ _ Hc_ok Hc0) as [E Hch].
+        unfold x_refitem. destruct rd; cbn [x_ref radix_n] in *; rewrite E; eexists; (split; [reflexivity|]); cbn [W.tree_ok]; rewrite Hch; reflexivity.
+      - apply ibind_ok in Hit. destruct Hit as [e0 [He0 _]].
+        destruct (Hcont n e0 He0) as [x0 [E1 E2]]. unfold x_refitem. cbn [x_ref]. eauto.
+      - eexists. split; reflexivity.
+      - eexists. split; reflexivity.
+      - eexists. split; reflexivity. }
+    cbn [x_cells]. exists (x' :: x_text tl ++ kl). split.
+    + cbn [W.mapM]. rewrite Ex. rewrite (mapM_app _ _ _ _ _ Et Ekl). reflexivity.
+    + apply allc_cons; [exact Ox|]. apply allc_app; assumption.
+Qed.
+
+Theorem m_element_checked : forall e, m_elem_checked e.
+Proof.
+  apply element_ind2.
+  - intros n a [Hq [Ha _]] el Hb. cbn [build_element] in Hb. apply ibind_ok in Hb. destruct Hb as [attrs' [Hat _]].
+    cbn [x_elem]. rewrite s_expand_elem. cbn [W.mapM]. eexists. split; [reflexivity|].
+    cbn [W.tree_ok]. unfold build_attrs in Hat.
+    destruct (build_attrs_nodup ents ext a [] attrs' Hat) as [Hnd _]; [constructor| |].
+    { revert Ha. apply Forall_impl. intros x [[H1 _] H2]. split; assumption. }
+    rewrite map_map. change (map (fun x => fst (x_att x)) a) with (map att_nm a). rewrite Hnd.
+    rewrite (s_attrs_values_ok ents ext en f Hattr a [] attrs' Hat Ha). reflexivity.
+  - intros n a h cells Hcells [Hq [Ha [Hh Hcs]]] el Hb. cbn [build_element] in Hb.
+    apply ibind_ok in Hb. destruct Hb as [attrs' [Hat Hb]]. apply ibind_ok in Hb. destruct Hb as [ch [Hch _]].
+    destruct (m_cells_check cells Hcells Hcs ch Hch) as [kl [Ekl Okl]]. destruct (s_text_check en f h) as [Et Ot].
+    cbn [x_elem]. rewrite s_expand_elem. rewrite (mapM_app _ _ _ _ _ Et Ekl). eexists. split; [reflexivity|].
+    cbn [W.tree_ok]. rewrite Wstr_eqb_refl. unfold build_attrs in Hat.
+    destruct (build_attrs_nodup ents ext a [] attrs' Hat) as [Hnd _]; [constructor| |].
+    { revert Ha. apply Forall_impl. intros x [[H1 _] H2]. split; assumption. }
+    rewrite map_map. change (map (fun x => fst (x_att x)) a) with (map att_nm a). rewrite Hnd.
+    rewrite (s_attrs_values_ok ents ext en f Hattr a [] attrs' Hat Ha). cbn [W.guard W.andc]. apply allc_app; assumption.
+Qed.
+End ElemsM.
+
 (** ** the document *)
 Definition markup_doc (pd : pdoc) : bool := forallb markup_ent (gents (doc_subset pd)).
 
@@ -143,7 +206,7 @@ Proof.
     { unfold x_doc. cbn [W.x_doctype]. rewrite Hdd. reflexivity. }
     rewrite Hsub in *. rewrite Hmust. rewrite (entities_of_subset _ Hoks) in Hf0. unfold tbl in Hf0. rewrite map_length in Hf0.
     rewrite (m_subset_checked ext0 f0 (dd_internal_subset dd) [] [] ch Hch Hoks Hinv Hplain); [|intros e0 []|exact Hwf|exact Hf0|intros k; reflexivity].
-    destruct (s_element_checked (gents (dd_internal_subset dd)) ext0 (W.doc_env (x_doc pd)) f0) with (e := d_element pd) (el := el) as [x' [Ex Ox]].
+    destruct (m_element_checked (gents (dd_internal_subset dd)) ext0 (W.doc_env (x_doc pd)) f0) with (e := d_element pd) (el := el) as [x' [Ex Ox]].
     + intros nm e He. exact (ref_attr_ok_m _ ext0 _ Hrel Hplain (gents_sys _) Hwf f0 nm e Hf0 He).
     + intros nm e He. exact (ref_content_ok_m _ ext0 _ Hrel Hplain Hwf f0 nm e Hf0 He).
     + exact Hel.
@@ -186,12 +249,13 @@ Proof.
   cbn [andb] in Hns. apply negb_false_iff in Hns. exact Hns.
 Qed.
 
-(** non-vacuity: an entity value with elements, a comment, a PI, a CDATA section, a nested reference and
-    a `<` written as a character reference, used in content; another entity in an attribute value and a default:
-    <!DOCTYPE r [<!ENTITY b "z&#65;"><!ENTITY m "<i>x&b;</i><!-- c --><?p d?><![CDATA[<]]>&#60;j/>">
+(** non-vacuity: an entity value with elements (one with attributes), a comment, a PI, a CDATA section, a
+    nested reference and a `<` written as a character reference, used in content; another entity in an
+    attribute value and a default:
+    <!DOCTYPE r [<!ENTITY b "z&#65;"><!ENTITY m "<i x='1' y='&#65;'>x&b;</i><!-- c --><?p d?><![CDATA[<]]>&#60;j/>">
                  <!ATTLIST r k CDATA "&b;">]><r k="&b;">&m;&b;</r> *)
 Definition ex_markup : str :=
-  [60;33;68;79;67;84;89;80;69;32;114;32;91;60;33;69;78;84;73;84;89;32;98;32;34;122;38;35;54;53;59;34;62;60;33;69;78;84;73;84;89;32;109;32;34;60;105;62;120;38;98;59;60;47;105;62;60;33;45;45;32;99;32;45;45;62;60;63;112;32;100;63;62;60;33;91;67;68;65;84;65;91;60;93;93;62;38;35;54;48;59;106;47;62;34;62;60;33;65;84;84;76;73;83;84;32;114;32;107;32;67;68;65;84;65;32;34;38;98;59;34;62;93;62;60;114;32;107;61;34;38;98;59;34;62;38;109;59;38;98;59;60;47;114;62].
+  [60;33;68;79;67;84;89;80;69;32;114;32;91;60;33;69;78;84;73;84;89;32;98;32;34;122;38;35;54;53;59;34;62;60;33;69;78;84;73;84;89;32;109;32;34;60;105;32;120;61;39;49;39;32;121;61;39;38;35;54;53;59;39;62;120;38;98;59;60;47;105;62;60;33;45;45;32;99;32;45;45;62;60;63;112;32;100;63;62;60;33;91;67;68;65;84;65;91;60;93;93;62;38;35;54;48;59;106;47;62;34;62;60;33;65;84;84;76;73;83;84;32;114;32;107;32;67;68;65;84;65;32;34;38;98;59;34;62;93;62;60;114;32;107;61;34;38;98;59;34;62;38;109;59;38;98;59;60;47;114;62].
 
 Example accepted_wf_markup_nonvacuous :
   (exists d, from_raw ex_markup = OOk ([], d)) /\ KnownD04_doc ex_markup = false /\ markup_entities ex_markup = true
